@@ -1,6 +1,8 @@
 package world
 
 import (
+	"bytes"
+	"github.com/elementsproject/peerswap/verifsim/rt"
 	"encoding/json"
 	"fmt"
 	"strings"
@@ -453,6 +455,20 @@ func (m *monC12) OnObs(w *World, o *Obs) {
 			c = w.LBTC
 		}
 		for _, so := range c.SwapByTx(o.Tx.TxID) {
+			// "locks exactly amount plus premium": every output this node has paid to the same swap
+			// script counts (a wallet that funds and broadcasts again after an error it took for a
+			// rejection locks the amount twice)
+			var total uint64
+			cnt := 0
+			for _, k := range rt.SortedKeys(c.Swaps) {
+				if x := c.Swaps[k]; x.Owner == o.Node && len(so.PkScript) > 0 && bytes.Equal(x.PkScript, so.PkScript) {
+					total += x.Amount
+					cnt++
+				}
+			}
+			if cnt > 1 {
+				w.Violate("C12", "locked-more-than-once:"+o.Tx.Chain, "node %d has paid %d outputs (%d sat in total) to the script of one swap; the opening of %.12s alone is %d sat", o.Node, cnt, total, o.Tx.TxID, so.Amount)
+			}
 			inv := w.LN.Invoices[so.PayHash]
 			if inv == nil {
 				continue
